@@ -80,10 +80,11 @@ Print Assumptions C12_id_never_changes_refuted.
 
 (* ---------- never collide ---------- *)
 
-(** processes with pairwise different seeds + an engine that gives different ids to the createId calls the history
+(** a fork that does not hand the engine state down + processes with pairwise different seeds + an engine that gives different ids to the createId calls the history
     makes  ==>  all ids ever stored in the file are pairwise distinct, and the ids held now (file, every entity,
     deleted ones included) are pairwise distinct — in every reachable state, across sessions and processes *)
 Theorem C12_ids_unique_given_supply : forall gen beh t e h,
+  fork_copies_engine beh = false ->
   NoDup (seeds_of beh (procs_of t e h)) ->
   (forall d d', In d (st_draws (run gen beh t e h)) -> In d' (st_draws (run gen beh t e h)) ->
                 supd gen d = supd gen d' -> d = d') ->
@@ -117,7 +118,7 @@ Print Assumptions C12_cross_process_collision_refuted.
     repeating itself on the calls made, unique ids for arbitrary relative start times *)
 Theorem C12_unique_across_processes_repaired : forall gen,
   (forall t1 t2 e1 e2, e1 <> e2 -> seed_of repaired t1 e1 <> seed_of repaired t2 e2) /\
-  (forall beh t e h, seed_uses_entropy beh = true -> NoDup (map snd (procs_of t e h)) ->
+  (forall beh t e h, seed_uses_entropy beh = true -> fork_copies_engine beh = false -> NoDup (map snd (procs_of t e h)) ->
      (forall d d', In d (st_draws (run gen beh t e h)) -> In d' (st_draws (run gen beh t e h)) ->
                    supd gen d = supd gen d' -> d = d') ->
      let st := run gen beh t e h in NoDup (st_seen st) /\ NoDup (st_file st :: map e_id (st_ents st))) /\
@@ -128,6 +129,30 @@ Proof.
   intros gen. exact (conj distinct_entropy_distinct_seeds (conj (unique_across_processes_repaired gen) (procs_common_repaired gen))).
 Qed.
 Print Assumptions C12_unique_across_processes_repaired.
+
+(** FORK.  While a forked child inherits the function-local static engine (the tree today), for EVERY engine and
+    whatever clocks and entropy source say: two children forked by the process that created the file give their
+    first entities the same id, a child's first entity gets the id of the parent's next entity, and in the
+    separate-files experiment two children share their first id. *)
+Theorem C12_fork_collision_refuted : forall gen beh, fork_copies_engine beh = true ->
+  ((forall t e t1 e1 t2 e2 n1 n2,
+      nodupb (st_seen (run gen beh t e [OFork t1 e1 KBlock [n1]; OFork t2 e2 KSection [n2]])) = false) /\
+   (forall t e t1 e1 n1 n2,
+      nodupb (st_seen (run gen beh t e [OFork t1 e1 KBlock [n1]; OCreate KSection None n2 None])) = false)) /\
+  (forall t e pre c1 c2 cs kc kp, fork_common gen beh t e pre (c1 :: c2 :: cs) (S kc) kp = true).
+Proof. intros gen beh FC. exact (conj (fork_collision_refuted gen beh FC) (fork_common_today gen beh FC)). Qed.
+Print Assumptions C12_fork_collision_refuted.
+
+(** Once the library re-seeds in a forked child, a forked child is just another process (so the uniqueness
+    theorems above cover it under the same entropy / engine assumptions), and the fork experiment finds nothing. *)
+Theorem C12_fork_repaired : forall gen beh, fork_copies_engine beh = false ->
+  (forall st t e k names, step gen beh st (OFork t e k names) = step gen beh st (OCreateOther t e k names)) /\
+  (forall t e pre cs kc kp,
+     NoDup (map (supd gen) (map (fun k => (seed_of beh t e, k)) (seq 0 (pre + kp)) ++
+                            flat_map (fun c => map (fun k => (seed_of beh (fst c) (snd c), k)) (seq 0 kc)) cs)) ->
+     fork_common gen beh t e pre cs kc kp = false).
+Proof. intros gen beh NF. exact (conj (fork_step_repaired gen beh NF) (fork_common_repaired gen beh NF)). Qed.
+Print Assumptions C12_fork_repaired.
 
 (* ---------- the oracle of the correspondence run ---------- *)
 
@@ -141,7 +166,7 @@ Proof. exact observe_meets_spec. Qed.
 Print Assumptions C12_oracle_is_statement.
 
 Theorem C12_model_meets_spec_when_repaired : forall gen beh t e h,
-  dup_frame_reidentifies beh = false ->
+  dup_frame_reidentifies beh = false -> fork_copies_engine beh = false ->
   NoDup (seeds_of beh (procs_of t e h)) ->
   (forall d d', In d (st_draws (run gen beh t e h)) -> In d' (st_draws (run gen beh t e h)) ->
                 supd gen d = supd gen d' -> d = d') ->
@@ -152,7 +177,8 @@ Print Assumptions C12_model_meets_spec_when_repaired.
 (* ---------- non-vacuity ---------- *)
 
 (** [nv_history] (IdsProofs.v): every entity kind, a delete, a re-creation, rejected duplicates, forceId, a
-    read-only session, two other processes started in the SAME second as the creator (entropy differs), a take-over.
+    read-only session, two other processes started in the SAME second as the creator (entropy differs), a take-over,
+    two forked children.
     On the repaired behaviour the hypotheses of the uniqueness theorem hold for the concrete engine [toy_gen] (so
     they are satisfiable) and the state is non-trivial; on the pinned behaviour the same history collides. *)
 Example C12_nonvacuous_unique : let st := run toy_gen repaired 100 1 nv_history in
@@ -164,12 +190,15 @@ Example C12_nonvacuous :
   let st := run toy_gen repaired 100 1 nv_history in
   nodupzb (seeds_of repaired (procs_of 100 1 nv_history)) = true /\
   nodupb (map (supd toy_gen) (st_draws st)) = true /\
-  List.length (st_ents st) = 17%nat /\ List.length (filter e_live (st_ents st)) = 16%nat /\
-  List.length (st_seen st) = 19%nat /\ List.length (st_draws st) = 21%nat /\
+  List.length (st_ents st) = 21%nat /\ List.length (filter e_live (st_ents st)) = 20%nat /\
+  List.length (st_seen st) = 23%nat /\ List.length (st_draws st) = 25%nat /\
   observe st = spec_observe st /\
   (* the same history on the pinned behaviour: the other processes repeat the creator's ids, the frame is re-identified *)
   let st' := run toy_gen code_today 100 1 nv_history in
-  nodupb (st_seen st') = false /\ observe st' <> spec_observe st'.
+  nodupb (st_seen st') = false /\ observe st' <> spec_observe st' /\
+  (* ... and on the tree as it is today (frames and seeds repaired, fork not): the forked children repeat ids *)
+  let st'' := run toy_gen (mkBehaviour false true true) 100 1 nv_history in
+  nodupb (st_seen st'') = false /\ observe st'' <> spec_observe st''.
 Proof. vm_compute. repeat split; discriminate. Qed.
 
 Example C12_text_examples :
